@@ -10,6 +10,7 @@ mod p01;
 mod p03;
 mod peph;
 mod p12;
+mod p06;
 // MODULES (keep this list and the two dispatch tables below in sync)
 
 use std::io::{self, BufRead, Write, BufWriter};
@@ -18,6 +19,7 @@ pub fn dispatch_exec(op: &str, a: &[i64]) -> Option<String> {
   if let Some(r) = p01::exec(op, a) { return r; }
   if let Some(r) = p03::exec(op, a) { return r; }
   if let Some(r) = p12::exec(op, a) { return r; }
+  if let Some(r) = p06::exec(op, a) { return r; }
   // DISPATCH-EXEC
   Some("bad-op".to_string())
 }
@@ -27,6 +29,7 @@ pub fn dispatch_enum(name: &str, args: &[String], w: &mut dyn Write) -> bool {
   if p03::run_enum(name, args, w) { return true; }
   if peph::run_enum(name, args, w) { return true; }
   if p12::run_enum(name, args, w) { return true; }
+  if p06::run_enum(name, args, w) { return true; }
   // DISPATCH-ENUM
   false
 }
